@@ -2,9 +2,11 @@
 
 import io
 import json
+import re
 
 from pydiffx.errors import (DiffXContentError,
                             DiffXOptionValueChoiceError,
+                            DiffXOptionValueError,
                             DiffXSectionOrderError)
 from pydiffx.options import (DiffType,
                              LineEndings,
@@ -39,6 +41,8 @@ class DiffXWriter(object):
 
     #: Default encoding to use for the DiffX file.
     DEFAULT_ENCODING = 'utf-8'
+
+    _HEADER_OPTION_VALUE_RE = re.compile(r'[A-Za-z0-9/._-]+')
 
     _LEVEL_NONE = 0
     _LEVEL_MAIN = 1
@@ -556,7 +560,20 @@ class DiffXWriter(object):
         Returns:
             bytes:
             The header line, including the trailing newline.
+
+        Raises:
+            pydiffx.errors.DiffXOptionValueError:
+                An option value contained characters not allowed in a header.
         """
+        for _key, _value in options.items():
+            if (_value is not None and
+                not self._HEADER_OPTION_VALUE_RE.fullmatch('%s' % _value)):
+                raise DiffXOptionValueError(
+                    '"%s" is not a valid value for the "%s" option. Values '
+                    'may only contain letters, numbers, and the characters '
+                    '"/", ".", "_", and "-"'
+                    % (_value, _key))
+
         options_str = ', '.join(
             '%s=%s' % (_key, _value)
             for _key, _value in sorted(options.items(),
